@@ -327,8 +327,9 @@ def check_key_recipe(prog, rep, rule, en, reader_key):
     for st in s.all_sites():
         if st.kind == "mcall" and st.name in ("insert", "contains_key", "get", "get_mut", "entry") and st.args and len(st.args) >= 2:
             recv = q.strip_mut(st.args[0])
-            is_dup = recv[0] in ("loopvar", "mu") and recv[2] == "duplicates" or (recv[0] == "call" and "new" in recv[1] and "duplicates" in str(st.argnodes[0].get("name", ""))) \
-                or (st.argnodes and st.argnodes[0] is not None and (terms.place_path(st.argnodes[0]) or "").split(".")[0] == "duplicates")
+            # the counter map, recognised by its type: HashMap<(formula text, domain map), i32> - a local, a field, a parameter
+            ty_ = str((st.argnodes[0] or {}).get("ty", "")).replace("&mut ", "").replace("&", "").strip() if st.argnodes else ""
+            is_dup = ty_.startswith("std::collections::HashMap<(std::string::String, std::collections::BTreeMap<") and ty_.endswith(", i32>")
             if is_dup:
                 wkeys.append(st)
     if not wkeys:
@@ -356,7 +357,8 @@ def check_key_recipe(prog, rep, rule, en, reader_key):
                   f"writer builds {short(t, 200)}; reader builds {short(reader_key, 200)}")
     # duplicates are only recorded for at most one variable (sequential renaming on a hit is only correct then)
     writes = [x for x in wkeys if x.name in ("insert", "entry", "get_mut")] + \
-             [x for x in s.all_sites() if x.kind == "assignop" and "duplicates" in pt(x.args[0])]
+             [x for x in s.all_sites() if x.kind == "assignop" and ("duplicates" in pt(x.args[0]) or any(q.as_at(x.args[0]) is not None and
+                                                                                                        q.as_at(x.args[0])[0] == q.strip_mut(w.args[0]) for w in wkeys))]
     n = 0
     for st in writes:
         guard = False
